@@ -58,13 +58,21 @@ deriving DecidableEq, Repr
 structure Obs where
   outs : Outs := []
   sess : List SessObs := []
-  clients : List (Nat × Bool) := []       -- ids that resolve in the global table (id, isPublisher)
-  mcu : List Nat := []                    -- objects open at the media server
+  /-- ids that resolve in the global table: (id, isPublisher, session that created it) -/
+  clients : List (Nat × Bool × Nat) := []
+  /-- objects open at the media server: (id, session that created it) -/
+  mcu : List (Nat × Nat) := []
   conns : List Nat := []                  -- connections still open (client side)
 deriving DecidableEq, Repr
 
 def Obs.live (o : Obs) : List Nat := o.sess.map (·.sid)
 def Obs.resolves (o : Obs) (id : Nat) : Bool := o.clients.any (·.1 == id)
+def Obs.isOpen (o : Obs) (id : Nat) : Bool := o.mcu.any (·.1 == id)
+/-- The session that created object `id` (the media server's record of its listener). -/
+def Obs.creator (o : Obs) (id : Nat) : Option Nat :=
+  match o.clients.find? (·.1 == id) with
+  | some e => some e.2.2
+  | none => (o.mcu.find? (·.1 == id)).map (·.2)
 
 /-- Tables identical (including the use stamps). -/
 def Obs.sameTables (a b : Obs) : Bool :=
@@ -76,13 +84,11 @@ structure Judge where
   now : Int := 0
   /-- connection → the session it was told it has (hello replies; cleared by bye / close). -/
   connSess : List (Nat × Nat) := []
-  /-- object → session that created it (from `created` replies). -/
-  owner : List (Nat × Nat) := []
   prev : Obs := {}
 deriving Repr
 
 def Judge.sessOf (j : Judge) (c : Nat) : Option Nat := j.connSess.lookup c
-def Judge.ownerOf (j : Judge) (id : Nat) : Option Nat := j.owner.lookup id
+def Judge.ownerOf (j : Judge) (id : Nat) : Option Nat := j.prev.creator id
 
 def outsTo (o : Outs) (c : Nat) : List SMsg := (o.filter (·.1 == c)).map (·.2)
 
@@ -121,7 +127,7 @@ def Judge.clause (cfg : Cfg) (j : Judge) (op : Op) (obs : Obs) : Option String :
         else
           match j.ownerOf id with
           | some s' =>
-            if s' != s && j.prev.resolves id && !(obs.resolves id && obs.mcu.contains id)
+            if s' != s && j.prev.resolves id && j.prev.isOpen id && !(obs.resolves id && obs.isOpen id)
             then some "foreign-delete-had-effect" else none
           | none => none
       match m with
@@ -138,16 +144,12 @@ def Judge.learn (j : Judge) (obs : Obs) : Judge :=
     match m with
     | .hello sid => { j with connSess := (c, sid) :: j.connSess.filter (fun p => p.1 != c && p.2 != sid) }
     | .bye _ => { j with connSess := j.connSess.filter (fun p => p.1 != c) }
-    | .created id =>
-      match j.sessOf c with
-      | some s => { j with owner := (id, s) :: j.owner }
-      | none => j
     | _ => j) j
 
 /-- Cleanup clause, evaluated after every step: an object created by a session
 that is no longer live must be closed and its id must not resolve. -/
-def Judge.residue (j : Judge) (obs : Obs) : Option String :=
-  if j.owner.any (fun (id, s) => !(obs.live.contains s) && (obs.resolves id || obs.mcu.contains id))
+def Judge.residue (_j : Judge) (obs : Obs) : Option String :=
+  if obs.clients.any (fun e => !(obs.live.contains e.2.2)) || obs.mcu.any (fun e => !(obs.live.contains e.2))
   then some "object-outlives-session" else none
 
 def Judge.observe (cfg : Cfg) (j : Judge) (op : Op) (obs : Obs) : Judge × String :=
@@ -155,7 +157,8 @@ def Judge.observe (cfg : Cfg) (j : Judge) (op : Op) (obs : Obs) : Judge × Strin
   let j1 := j.learn obs
   -- a connection the client closed no longer speaks for a session
   let j1 := match op with
-    | .close c => { j1 with connSess := j1.connSess.filter (fun p => p.1 != c) }
+    | .close c =>
+      if obs.conns.contains c then j1 else { j1 with connSess := j1.connSess.filter (fun p => p.1 != c) }
     | .sleep d => { j1 with now := j1.now + (d : Int) }
     | _ => j1
   let v2 := j1.residue obs
